@@ -4,7 +4,7 @@
    The version part reuses the version model of C01/C02 (SpecModel.Version, vstr).
    Encoders: WheelLaws.wheel_name / escape (binary-distribution spec), p ++ "-" ++ version ++ ext (source-distribution spec).
    Domain of the round trips: project names over ASCII letters, digits and -_. (escaped with or without lower-casing); any version text
-   without '-' that Version() accepts, in particular str(v); build (number, suffix) with a suffix free of '-' and newline that does not start
+   without '-' that Version() accepts, in particular str(v); build (number, suffix) with a suffix free of '-' that does not start
    with a digit; non-empty lists of tag parts free of '-' and '.'.  Outside it the encoding is not injective (12 + "3x" = 123 + "x").
    A frozenset of tags is modelled as the list the triple loop produces; the set is its set of elements (C14_tags_are_the_product).
    This file holds statements only. *)
